@@ -2,7 +2,7 @@ CONSTANT NtNVersions = {7, 8, 9, 10, 11, 12, 13, 14, 15}
 CONSTANT NtCVersions = {9, 10, 11, 12, 13, 14, 15, 16, 17, 18, 19, 20, 21}
 CONSTANT DMQVersions = {1}
 CONSTANT ExtraIds = {11, 99}
-CONSTANT Design = "fixed"
+CONSTANT Design = "optin"
 CONSTANT LocalOptSpace = "node-to-node"
 INIT Init
 NEXT Next
